@@ -28,7 +28,8 @@ def plan(tier, seed):
 def floors(tier):
     return {"distinct_nontrivial": 300, "cls:variant:one": 500, "cls:variant:in": 300, "cls:variant:contains": 300,
             "cls:variant:notin": 300, "cls:variant:notcontains": 200, "cls:variant:or_in": 150, "cls:variant:not_and_in": 150,
-            "cls:variant:and_in": 150, "cls:variant:one_setof": 100, "cls:variant:in_with_list": 100, "cls:variant:index0": 100, "cls:variant:two_lists": 100, "cls:variant:two_tests_same_parent": 100, "cls:concatenate_of_flatten_over_lists_of_lists": 100, "cls:variant:prebound_in": 150, "cls:variant:prebound_notin": 100,
+            "cls:variant:and_in": 150, "cls:variant:one_setof": 100, "cls:variant:in_with_list": 100, "cls:variant:index0": 100, "cls:variant:two_lists": 100, "cls:variant:two_tests_same_parent": 100, "cls:variant:parent_bound_first": 100, "cls:preceded_by_an_abandoned_evaluation": 1000,
+            "cls:inner_collections_are_one_shot_iterators": 150, "cls:concatenate_of_flatten_over_lists_of_lists": 100, "cls:variant:prebound_in": 150, "cls:variant:prebound_notin": 100,
             "cls:parent_is_a_query_with_alternatives": 300, "cls:parent_domain_without_parents": 100, "cls:two_level_concatenate": 300, "cls:plain_scalar_values": 100, "cls:all_empty": 30, "cls:scalar": 100,
             "re:Concatenate(@.*)?\\.enter": 2000}
 
@@ -43,8 +44,9 @@ def cases(spec, ctx):
         order = list(range(5))
         rng.shuffle(order)
         case = {"world": w, "variant": rng.choice(["one", "one", "in", "contains", "notin", "notcontains", "or_in", "not_and_in", "and_in",
-                                                   "one_setof", "in_with_list", "index0", "two_lists", "two_tests_same_parent"]),
-                "order": order, "scalar": rng.random() < 0.1, "caching": rng.random() < 0.7, "thr": rng.randint(1, 4)}
+                                                   "one_setof", "in_with_list", "index0", "two_lists", "two_tests_same_parent", "parent_bound_first"]),
+                "order": order, "scalar": rng.random() < 0.1, "caching": rng.random() < 0.7, "thr": rng.randint(1, 4),
+                "take_first": rng.choice([0, 0, 1, 2]), "one_shot_items": rng.random() < 0.12}
         if rng.random() < 0.08:
             # scalar inner values, falsy ones included: each counts as one element of the concatenation
             for p_ in w["parents"]:
@@ -120,6 +122,8 @@ def check_case(case, ctx):
         ctx.cls("cls:all_empty")
     if case["scalar"]:
         ctx.cls("cls:scalar")
+    if case.get("one_shot_items") and not case["scalar"] and not case.get("nested") and not case.get("nested_lists"):
+        ctx.cls("cls:inner_collections_are_one_shot_iterators")
     lab = {id(e): f"E{i}" for i, e in enumerate(es)}
     (enable_caching if case["caching"] else disable_caching)()
     try:
@@ -132,7 +136,8 @@ def check_case(case, ctx):
             elif case.get("nested_lists"):
                 allv = concatenate(flatten(p.items))
             else:
-                allv = concatenate(p.one) if case["scalar"] else concatenate(p.items)
+                items_attr = "items_once" if (case.get("one_shot_items") and not case["scalar"]) else "items"
+                allv = concatenate(p.one) if case["scalar"] else concatenate(getattr(p, items_attr))
             thr = case.get("thr", 2)
             if v == "one":
                 q = an(entity(allv))
@@ -155,8 +160,12 @@ def check_case(case, ctx):
                         "prebound_in": lambda: in_(d, allv), "prebound_notin": lambda: not_(in_(d, allv)),
                         "in_with_list": lambda: in_(d, allv), "index0": lambda: d == allv[0],
                         # two concatenations over the SAME parent variable in one query
-                        "two_tests_same_parent": lambda: and_(in_(d, allv), in_(d, concatenate(p.one)))}[v]()
-                if v == "in_with_list":         # the combined list selected next to the member
+                        "two_tests_same_parent": lambda: and_(in_(d, allv), in_(d, concatenate(p.one))),
+                        # the parent is bound by an earlier conjunct: the list is that parent's own
+                        "parent_bound_first": lambda: in_(d, allv)}[v]()
+                if v == "parent_bound_first":
+                    q = an(entity(d, p.k > thr - 1, cond))
+                elif v == "in_with_list":         # the combined list selected next to the member
                     from entity_query_language import set_of
                     q = an(set_of([d, allv], cond))
                 elif v.startswith("prebound"):    # the outer variable is bound by an earlier condition
@@ -165,6 +174,13 @@ def check_case(case, ctx):
                     q = an(entity(d, cond))
         snapshot = [list(p_.items) for p_ in ps]
         try:
+            if case.get("take_first"):      # an earlier evaluation that is left after a result or two
+                it0 = iter(q.evaluate())
+                for _ in range(case["take_first"]):
+                    if next(it0, None) is None:
+                        break
+                it0.close()
+                ctx.cls("cls:preceded_by_an_abandoned_evaluation")
             got = list(q.evaluate())
             got2 = list(q.evaluate())       # the value is the same list on every evaluation
             with symbolic_mode():           # ... and for a fresh query over the same objects
@@ -213,12 +229,18 @@ def check_case(case, ctx):
         sel = {"in": member, "contains": member, "notin": lambda x: not member(x), "notcontains": lambda x: not member(x),
                "or_in": lambda x: member(x) or x.n == thr, "not_and_in": lambda x: not (x.n > thr and member(x)),
                "and_in": lambda x: x.n > thr and member(x), "in_with_list": member,
+               "parent_bound_first": lambda x: any(x is y for p_ in pdom if isinstance(p_, Par) and p_.k > thr - 1
+                                                   and (not pq or p_.k == pq["k1"] or p_.k > pq["k2"])
+                                                   for y in ([p_.one] if case["scalar"] else p_.items)),
                "two_tests_same_parent": lambda x: member(x) and any(x is p_.one for p_ in pdom if isinstance(p_, Par)
                                                                    and (not pq or p_.k == pq["k1"] or p_.k > pq["k2"])),
                "index0": lambda x: bool(flat) and x is flat[0], "prebound_in": lambda x: x.n != thr and member(x),
                "prebound_notin": lambda x: x.n != thr and not member(x)}[v]
         exp = [lab[id(x)] for x in dom if sel(x)]
         obs = [lab.get(id(x), f"?{type(x).__name__}") for x in got]
+        if v == "parent_bound_first":
+            # the parent is bound and not selected: one row per (parent, member) pair - the SET of members is what is specified
+            exp, obs = sorted(set(exp)), sorted(set(obs))
         nontrivial = 0 < len(exp) < len(dom)
     if nontrivial:
         ctx.nontrivial()
@@ -241,7 +263,7 @@ def check_case(case, ctx):
             ctx.sample({"parents": case["world"]["parents"], "variant": v, "expected": exp, "observed": obs})
             return
         flat_exp = [[lab[id(x)] for x in flat]]
-        if enc(got2) != exp:
+        if (sorted(set(enc(got2))) if v == "parent_bound_first" else enc(got2)) != exp:
             ctx.fail("CONCATENATE:" + v + ":second_evaluation", {"expected": exp, "observed": enc(got2), "user_lists_modified": mutated})
         elif [[lab.get(id(x), "?") for x in g] if isinstance(g, (list, tuple)) else "?" for g in got3] != flat_exp:
             ctx.fail("CONCATENATE:fresh_query_over_same_objects", {"expected": flat_exp, "user_lists_modified": mutated,
